@@ -25,7 +25,7 @@ def configs(tier):
     for index, fields in enumerate(FIELD_SETS):
         for preset in presets:
             for header in (0, 1, 2):
-                if tier == "quick" and (index + header + presets.index(preset)) % 3 != 0 and preset in ("ods", "excel"):
+                if tier == "quick" and (index + header + presets.index(preset)) % 2 != 0 and preset in ("ods", "excel"):
                     continue
                 checks = []
                 if "id" in fields and index % 2 == 0:
@@ -86,7 +86,7 @@ def run(ctx):
     for config in configs(ctx.tier):
         file_based = config["preset"] in ("ods", "excel")
         if quick:
-            depth = 3 if file_based else 4
+            depth = 4 if file_based else 5
         else:
             depth = 5 if file_based else 8
         if config["checks"] and not quick:
@@ -99,7 +99,7 @@ def run(ctx):
                 items.append((config, 3, False))
     items.sort(key=lambda item: -(item[1] * (5 if item[0]["preset"] in ("ods", "excel") else 1)))
     ctx.bound = {"configurations": len(items), "field sets": len(FIELD_SETS), "formats": ["delimited", "fixed", "ods", "excel"], "header": "0..2",
-                 "depth": "quick: tables of up to 4 rows (files: 3); thorough: up to 8 rows (files 5; with checks 6/4), plus unmerged enumeration to depth 3",
+                 "depth": "quick: tables of up to 5 rows (files: 4); thorough: up to 8 rows (files 5; with checks 6/4), plus unmerged enumeration to depth 3",
                  "row shapes": "2-3 accepted rows, one rejected cell per column, two rejected cells, one item short, one long, empty row"}
     ctx.rule = ("BFS over tables: every row shape is appended in every distinct reader state (snapshot of counters, location and check objects); each edge re-runs the "
                 "whole table on a fresh Reader and compares every yielded row / error (class, row number incl. header, first offending column, field and input name "
